@@ -225,7 +225,10 @@ fn one(id: u64, v: &Value, bash: &Path) -> Value {
     match executed {
         Ok(Ok(outputs)) => {
             for (k, o) in outputs.iter().enumerate().take(n) {
-                if hist[k]["detached"] == json!(true) || o.exit_code == ExitStatus::Detached {
+                if hist[k]["detached"] != json!(true) && o.exit_code == ExitStatus::Detached {
+                    // run as detached although it is not configured so: nothing to wait for, nothing observed
+                    obs.push(json!({"missing": "executed as a detached test case although `detached` is not set (or set to false)"}));
+                } else if hist[k]["detached"] == json!(true) {
                     // what the detached test case saw and did: its probe file (it runs in the background: wait for it)
                     let f = root.path().join(format!("det_{}.out", k + 1));
                     let mut tries = 0;
